@@ -113,6 +113,7 @@ class Sym:
         self.call_marker = call_marker
         self.called = "false"
         self.at_call = None
+        self.symbols = {}                     # literal value -> Lean name of the regenerated constant (site specific)
         self.brk = "False"
         self.ret = "False"
         self.allow_return = False
@@ -206,6 +207,8 @@ class Sym:
             return self.expr(kids(n)[0])
         if k == "IntegerLiteral":
             v = int(n["value"])
+            if v in self.symbols:
+                return ("int", self.symbols[v])
             return ("int", str(v) if v >= 0 else "(%d)" % v)
         if k == "ImplicitCastExpr" and n.get("castKind") in ("LValueToRValue", "NoOp"):
             return self.expr(kids(n)[0])
@@ -272,7 +275,8 @@ class Sym:
                     c = int(lit["value"])
                     if c > 0 and c & (c - 1) == 0:
                         # x & 2^k on two's complement = bit k of x (Lean Int `/` and `%` round towards -inf for c > 0)
-                        return ("int", "(((%s / %d) %% 2) * %d)" % (ra, c, c))
+                        cs = self.symbols.get(c, str(c))
+                        return ("int", "(((%s / %s) %% 2) * %s)" % (ra, cs, cs))
                 raise OutOfGrammar("& with an operand that is not a power-of-two literal")
             rb = self.as_int(self.expr(b))
             if op in ("+", "-", "*"):
@@ -538,6 +542,9 @@ def extract(bdir):
                % (refuse, sy.state["ticks"], sy.state["interval"]))
     sy = Sym("set_heart_beat:growth", ["max_heart_beats", "num_hb_objs"], {}, ["max_heart_beats", "num_hb_objs"])
     sy.nested_ok = True
+    m3 = _re0.search(r"#define\s+HEART_BEAT_CHUNK\s+(0x[0-9a-fA-F]+|\d+)", open(os.path.join(E.REPO, "lib/efuns/options.h")).read())
+    if m3:
+        sy.symbols = {int(m3.group(1), 0): "((heartBeatChunk : Nat) : Int)"}
     grow = [st for st in kids(app) if st.get("kind") == "IfStmt" and sy.writes_tracked(st)]
     if len(grow) != 1:
         raise TieBroken("set_heart_beat:growth", "expected one if-statement that grows max_heart_beats in the append branch")
@@ -892,8 +899,15 @@ def extract(bdir):
         raise TieBroken("call_heart_beat:frame", "the while loop is not a direct statement of the guarded block")
     frame_vars = ["num_hb_objs", "heart_beat_index", "num_hb_to_do", "heart_beat_flag", "current_heart_beat"]
 
+    def macro_value(relpath, name):
+        m_ = _re0.search(r"#define\s+%s\s+(0x[0-9a-fA-F]+|\d+)" % name, open(os.path.join(E.REPO, relpath)).read())
+        return int(m_.group(1), 0) if m_ else None
+    tfhb = macro_value("src/main.h", "TIMER_FLAG_HEARTBEAT")
+
     def frame_sym(site):
         sy = Sym(site, frame_vars, {"timer_flags": "timer_flags"}, frame_vars + ["timer_flags"])
+        if tfhb is not None:
+            sy.symbols = {tfhb: "((timerFlagHeartbeat : Nat) : Int)"}
         return sy
     sy = frame_sym("call_heart_beat:round-entry")
     sy.run(ctop[:fi])
